@@ -76,7 +76,8 @@ RULE = ('Per case: a generated tree of 2 top-level packages / 11 modules (siblin
         'imports in both orders, `import a.b as b`, an alias re-bound inside one file, '
         'decorator-registered objects x parse variant, scoped references before a method '
         'binding, a numbered variant of a colliding alias, and references inside containers (dict key, '
-        'tuple in a dict value, nested list) before a method binding; 137 cases) and every error '
+        'tuple in a dict value, nested list) before a method binding, and an inherited method '
+        'configured through the subclass path; 149 cases) and every error '
         'class x position (root / included / second root) x variant (162 cases).')
 ASSUMPTIONS = [
     '`from X import Y` is generated only where Y is a module or package (Gin implements every '
@@ -124,7 +125,9 @@ ASSUMPTIONS = [
     'state it): another order of sections (follows internal registry names; canonical order is '
     'C06) and another, equally valid spelling of a section are counted under '
     'reserialised-section-order-differs / reserialised-spelling-differs.',
-    'No inheritance between generated classes; no macros or gin.* builtins in the files, and no '
+    'Inheritance only as class S(_Base) with one method inh inherited from a base that is never '
+    'named by any config; inh is configured through the subclass path S.inh only (configuring '
+    'the base class or its method as well is outside the quantifier); no macros or gin.* builtins in the files, and no '
     'SCOPED bindings (covered by C04/C05/C09); references may carry a scope (`@s/sel()`, '
     '`@s/t/sel`), which by the scope rules changes nothing about the delivered values since no '
     'binding is scoped; aliases are never Python keywords.',
@@ -174,8 +177,8 @@ LEVEL_NOTE = ('Trusted: CPython import semantics in the oracle child, the 30-lin
 ENABLE = 'from __gin__ import dynamic_registration'
 ALIASES = ['mm', 'nn', 'm1', 'sub', '@top', 'mm2', 'mm3']   # '@top': the first top-level package's own name
 LEAF_DEFS = ['fn', 'gn', 'K', 'K.meth', 'K.other', 'K.N', 'K.N.nm', 'cons', 'K.fn', 'wfn',
-             'dfn', 'Deco', 'R', 'R.rm', 'Outer.Inner']
-REF_DEFS = ['fn', 'gn', 'K', 'K.N', 'wfn', 'dfn', 'Deco', 'R', 'Outer.Inner']
+             'dfn', 'Deco', 'R', 'R.rm', 'Outer.Inner', 'S', 'S.inh']
+REF_DEFS = ['fn', 'gn', 'K', 'K.N', 'wfn', 'dfn', 'Deco', 'R', 'Outer.Inner', 'S']
 DECORATED = ('dfn', 'Deco', 'R', 'Outer')     # first qualname component: never registered dynamically
 ERRORS = {
     'name-other-file': 'NameError',
@@ -251,6 +254,21 @@ class K:
 
 def cons(a=None, b=None):
   return {'id': _ID + ':cons', 'a': a, 'b': b}
+
+
+class _Base:   # never named by any config (and skipped by the oracle walk: leading underscore)
+
+  def inh(self, x='dx', y='dy'):
+    return {'id': _ID + ':S.inh', 'x': x, 'y': y}
+
+
+_Base.inh._c19_id = 'S.inh'   # reached (only) as S.inh: an INHERITED method named via the subclass
+
+
+class S(_Base):
+
+  def __init__(self, x='dx', y='dy'):
+    self.got = {'id': _ID + ':S', 'x': x, 'y': y}
 
 
 # Registered by DECORATORS when the module is imported (not by the config's import), under Gin
@@ -401,6 +419,11 @@ def _py_table(p):
           continue
         if inspect.isfunction(v) or inspect.isclass(v):
           walk(path + '.' + n, v, depth + 1)
+      for base in obj.__mro__[1:]:          # methods inherited from generated base classes
+        if _ours(getattr(base, '__module__', None), tops):
+          for n, v in sorted(vars(base).items()):
+            if not n.startswith('_') and inspect.isfunction(v) and n not in vars(obj):
+              walk(path + '.' + n, v, depth + 1)
     elif inspect.isfunction(obj):
       # a decorated variant carries its own identity (functools.wraps copies __qualname__)
       table[path] = obj.__module__ + ':' + getattr(obj, '_c19_id', obj.__qualname__)
@@ -444,7 +467,7 @@ def _norm(v, tops, depth=0):
     except Exception:  # pylint: disable=broad-except
       orig = False
     d = {'is_orig': orig, 'got': _norm(got, tops, depth + 1)}
-    for m in ('meth', 'other', 'fn', 'nm', 'rm'):
+    for m in ('meth', 'other', 'fn', 'nm', 'rm', 'inh'):
       if hasattr(v, m):
         d[m] = _norm(getattr(v, m)(), tops, depth + 1)
     return d
@@ -916,7 +939,7 @@ def _expect_inst(model, objid):
   d = {'is_orig': True,
        'got': {'id': objid, 'x': _expect_val(model, objid, 'x'),
                'y': _expect_val(model, objid, 'y')}}
-  methods = {'K': ('meth', 'other', 'fn'), 'K.N': ('nm',), 'R': ('rm',)}.get(
+  methods = {'K': ('meth', 'other', 'fn'), 'K.N': ('nm',), 'R': ('rm',), 'S': ('inh',)}.get(
       objid.split(':')[1], ())
   for m in methods:
     d[m] = _expect_call(model, objid + '.' + m)
@@ -1238,6 +1261,8 @@ def _check(case, root):
   used_objs = set(spellings)
   if any(_is_method(o) and ':K.N.' not in o for o in used_objs):
     labels.add('method')
+  if any(o.endswith(':S.inh') for o in used_objs):
+    labels.add('inherited-method')
   if any(o.endswith(':K.N') for o in used_objs):
     labels.add('nested-class')
   if any(_is_method(o) and ':K.N.' in o for o in used_objs):
@@ -1523,11 +1548,12 @@ def _case(draw):
   mod_i = st.just(focus) | st.integers(0, 10)
   imp = st.tuples(mod_i, st.integers(0, 3), _alias_i).map(list)
   imp_i = st.just(0) | st.integers(0, 4)
-  def_i = st.sampled_from([0, 0, 1, 2, 2, 3, 3, 3, 4, 5, 6, 7, 8, 9, 9, 10, 11, 12, 13, 13, 14])
+  def_i = st.sampled_from([0, 0, 1, 2, 2, 3, 3, 3, 4, 5, 6, 7, 8, 9, 9, 10, 11, 12, 13, 13, 14,
+                           15, 16, 16])
   bind = st.tuples(st.just('b'), imp_i, def_i, _small, st.integers(0, 1), st.integers(0, 999),
                    st.sampled_from([0, 0, 0, 1])).map(list)
   ref = st.tuples(st.just('r'), imp_i, _small, st.integers(0, 1), imp_i,
-                  st.sampled_from([0, 1, 2, 2, 2, 3, 4, 5, 6, 7, 8]), _small,
+                  st.sampled_from([0, 1, 2, 2, 2, 3, 4, 5, 6, 7, 8, 9, 9]), _small,
                   st.sampled_from([1, 1, 0, 2, 2, 3, 4]),
                   st.sampled_from([0, 0, 0, 1, 1, 2, 3])).map(list)
   stmt = st.one_of(bind, bind, ref)
@@ -1591,6 +1617,16 @@ def _sweep_forms(tier):
                ['r', 0, 0, 1, 0, 3, 0, code], ['b', 0, 6, 0, 1, 103, 0], ['b', 0, 8, 0, 0, 104, 0]]
       cases.append({'pkg': {'init': [False] * 3, 'reexp': 0},
                     'files': [{'parent': None, 'at': 0, 'str': code == 3,
+                               'imports': [[mod, form, 0]], 'stmts': stmts}],
+                    'error': None, 'keep': False})
+  # a method INHERITED from an unnamed base, configured through the subclass path after the
+  # subclass was referenced
+  for mod, form in ((1, 0), (1, 3), (4, 2), (0, 1)):
+    for code in (1, 0, 2):
+      stmts = [['r', 0, 0, 0, 0, 9, 0, code], ['b', 0, 15, 0, 0, 141, 0],
+               ['b', 0, 16, 0, 1, 142, 0], ['b', 0, 16, 0, 0, 143, code & 1]]
+      cases.append({'pkg': {'init': [False] * 3, 'reexp': 0},
+                    'files': [{'parent': None, 'at': 0, 'str': bool(code & 1),
                                'imports': [[mod, form, 0]], 'stmts': stmts}],
                     'error': None, 'keep': False})
   # a class first referenced inside a container (dict KEY, tuple in a dict value, nested list),
